@@ -125,6 +125,13 @@ class Program:
             self.ov.compile()
             for m in self.methods[split:]:
                 base.register(self.make(m), priority=m.get("prio", 0))
+        elif mode == "linkback_all":
+            # the function under test is a linkback copy of a parent that holds every method and is not used yet
+            base = Ovld()
+            for m in self.methods:
+                base.register(self.make(m), priority=m.get("prio", 0))
+            self.base = base
+            self.ov = base.copy(linkback=True)
         elif mode == "mixin":
             a, b = Ovld(), Ovld()
             for m in self.methods[:split]:
